@@ -17,7 +17,7 @@ import (
 
 func init() {
 	Registry["C11"] = Set{
-		Explanation: "Decides structural clauses of the EDF round trip on the built-in codec: E1 registry agreement — for every wire tag the encoder registered for Go type T emits that tag (in the registry entry and inside the function) and the decoder registered under the tag produces T and checks the same tag; encodeX is paired with decodeX; E2 width agreement — per pair, the constant byte counts produced (Extend/AppendByte) equal the constant byte counts consumed (slice advances), every advance is covered by a length guard of the same size, atoms written equal atoms read; E3 length limits — no addition or multiplication is performed in a narrow unsigned type (uint8/16/32) on a decoded length (wrap makes accepted values undecodable), and the largest length each encoder accepts fits the wire field it is converted to; E4 no dynamic format string in the codec, protocol and handshake packages (decoded bytes must never be a format); E5 the discriminator constants agree across encoder guard, encoder cache test, decoder test and cache-id allocator for atoms (255), errors (32767, nil marker 65535) and registered names (4095); E6 cache direction — the handshake builds encode caches from the local Introduce and decode caches from the peer's, in both roles. Added while probing: E7 composite type descriptors: every composite tag the encoder emits has an arm in the decoder's type unfolding checking the same tag; E8 every fixed-width integer access of the codec is big-endian (no other byte order in net/edf). E9 a collection present on the wire is decoded into a made collection on every successful path (nil and empty stay apart); E2r the fixed-width reads a decoder takes from one packet value tile it from offset 0 without gap or overlap.",
+		Explanation: "Decides structural clauses of the EDF round trip on the built-in codec: E1 registry agreement — for every wire tag the encoder registered for Go type T emits that tag (in the registry entry and inside the function) and the decoder registered under the tag produces T and checks the same tag; encodeX is paired with decodeX; E2 width agreement — per pair, the constant byte counts produced (Extend/AppendByte) equal the constant byte counts consumed (slice advances), every advance is covered by a length guard of the same size, atoms written equal atoms read; E3 length limits — no addition or multiplication is performed in a narrow unsigned type (uint8/16/32) on a decoded length (wrap makes accepted values undecodable), and the largest length each encoder accepts fits the wire field it is converted to; E4 no dynamic format string in the codec, protocol and handshake packages (decoded bytes must never be a format); E5 the discriminator constants agree across encoder guard, encoder cache test, decoder test and cache-id allocator for atoms (255), errors (32767, nil marker 65535) and registered names (4095); E6 cache direction — the handshake builds encode caches from the local Introduce and decode caches from the peer's, in both roles. Added while probing: E7 composite type descriptors: every composite tag the encoder emits has an arm in the decoder's type unfolding checking the same tag; E8 every fixed-width integer access of the codec is big-endian (no other byte order in net/edf). E9 a collection present on the wire is decoded into a made collection on every successful path (nil and empty stay apart); E2r the fixed-width reads a decoder takes from one packet value tile it from offset 0 without gap or overlap. E10 every element-encoder call inside a composite encoder's loop is reached only through a reset of the sticky type-header flag (a missing reset between a map's key and value corrupts maps with interface-typed keys). E6b decode caches are keyed by ids ranged from the PEER's table, never by the local id. E11 no write through a Buffer.Extend window after anything that may grow that buffer (own appending methods, handing the buffer to a callee or as io.Writer). E12 slice/array coders are built only after the zero-wire-size predicate refused element types that take no bytes (encoder, registration, unfolding agree). E13 every successful return of the type unfolding hands back the rest of the fold (a map's value type follows its key type), the caller with a complete fold checks that nothing is left.",
 		NotDecided: []string{
 			"equality of decode(encode(v)) over the value space",
 			"behaviour of reflection for composite and registered types (header symmetry of slices/maps/structs is only checked for constant widths)",
@@ -54,6 +54,9 @@ func runC11(p *load.Program, r *core.Report) {
 	c11ReadTiling(p, r)
 	c11ElementFlagReset(p, r)
 	c11DecodeCacheKeys(p, r)
+	c11StaleWindow(p, r)
+	c11UnfoldRemainder(p, r)
+	c11NoProgressElements(p, r, "C11.E12 elements-take-bytes", "C11.E12")
 }
 
 // c11ReadTiling: E2r — in every decoder of net/edf the fixed-width reads taken from one packet
@@ -1359,4 +1362,346 @@ func c11DecodeCacheKeys(p *load.Program, r *core.Report) {
 			r.OK(rule, key, fn, p.Pos(f.Pos()), inst, fmt.Sprintf("%d Store(s), each keyed by the peer's id", n))
 		}
 	}
+}
+
+// c11StaleWindow: E11 — (*lib.Buffer).Extend(n) returns a window into the buffer's CURRENT array.
+// Anything that may grow the same buffer afterwards (its own appending methods, or handing the
+// buffer to another function) may move the data to a new array; a write through the old window then
+// lands in the abandoned array and the bytes in the packet stay zero/stale (a length prefix that
+// does not match what follows: the value encodes but does not decode). Every write through an
+// Extend window is reached from the Extend without passing a possible growth of that buffer.
+func c11StaleWindow(p *load.Program, r *core.Report) {
+	rule := "C11.E11 no-write-through-a-stale-buffer-window"
+	r.Floor(rule, 25)
+	bufT := p.Named("lib", "Buffer")
+	isBuf := func(v ssa.Value) bool {
+		pt, ok := v.Type().(*types.Pointer)
+		return ok && pt.Elem() == types.Type(bufT)
+	}
+	for _, f := range funcsOfPkgs(p, "net/edf", "net/proto", "net/handshake") {
+		seq := 0
+		eachInstr(f, func(in ssa.Instruction) {
+			c, ok := in.(*ssa.Call)
+			if !ok {
+				return
+			}
+			sf := staticCallee(c.Common())
+			if sf == nil || !recvIs(sf, bufT) || sf.Name() != "Extend" {
+				return
+			}
+			b := c.Common().Args[0]
+			seq++
+			fn := fname(f)
+			key := fmt.Sprintf("C11.E11|%s|window#%d", fn, seq)
+			inst := "the window returned by Extend is written before anything can grow the buffer"
+			mayGrow := func(x ssa.Instruction) bool {
+				if x == in {
+					return false
+				}
+				cc := callCommon(x)
+				if cc == nil {
+					return false
+				}
+				if g := staticCallee(cc); g != nil && recvIs(g, bufT) {
+					if len(cc.Args) > 0 && cc.Args[0] == b {
+						switch g.Name() {
+						case "Len", "Cap", "Reset":
+							return false
+						}
+						return true
+					}
+					return false
+				}
+				for _, a := range cc.Args {
+					if sa := stripIface(a); sa == b && isBuf(sa) { // also handed over as io.Writer
+						return true
+					}
+				}
+				return false
+			}
+			// uses of the window (and of slices of it)
+			win := map[ssa.Value]bool{c: true}
+			for changed := true; changed; {
+				changed = false
+				for w := range win {
+					if refs := w.Referrers(); refs != nil {
+						for _, rf := range *refs {
+							if sl, ok := rf.(*ssa.Slice); ok && !win[sl] {
+								win[sl] = true
+								changed = true
+							}
+						}
+					}
+				}
+			}
+			var bad []string
+			for w := range win {
+				refs := w.Referrers()
+				if refs == nil {
+					continue
+				}
+				for _, rf := range *refs {
+					isWrite := false
+					switch x := rf.(type) {
+					case *ssa.IndexAddr:
+						if x.Referrers() != nil {
+							for _, r2 := range *x.Referrers() {
+								if st, ok := r2.(*ssa.Store); ok && st.Addr == ssa.Value(x) {
+									isWrite = true
+								}
+							}
+						}
+					case *ssa.Call:
+						isWrite = true // PutUintN(window, …), copy(window, …)
+					}
+					if !isWrite {
+						continue
+					}
+					use := rf
+					// a growth reachable between the Extend and this use?
+					for _, g := range walkAvoid([]Point{after(in)}, func(x ssa.Instruction) bool { return x == use }, mayGrow) {
+						if instrReachable(g, use) {
+							bad = append(bad, fmt.Sprintf("written at %s after the buffer may have grown at %s", p.Pos(use.Pos()), p.Pos(g.Pos())))
+						}
+					}
+				}
+			}
+			if len(bad) > 0 {
+				sort.Strings(bad)
+				r.Bad(rule, key, fn, p.Pos(in.Pos()), inst, uniq(bad)[0]+": when the buffer is reallocated in between, the write goes to the old array and the packet keeps stale bytes there")
+			} else {
+				r.OK(rule, key, fn, p.Pos(in.Pos()), inst, "no possible growth of the buffer between Extend and the writes through its window")
+			}
+		})
+	}
+}
+
+// c11UnfoldRemainder: E13 — a folded type is a prefix code: the type of a map is its tag followed
+// by the key type followed by the value type. The unfolding of the key type therefore has to hand
+// back what it did not consume. Every successful return of decodeType carries the remainder of the
+// fold (never a constant nil), except the cache hit for a complete fold; and the caller that passes
+// a complete fold (getDecoder) checks that nothing is left.
+func c11UnfoldRemainder(p *load.Program, r *core.Report) {
+	rule := "C11.E13 type-unfolding-hands-back-the-remainder"
+	r.Floor(rule, 5)
+	f := p.Func("net/edf", "", "decodeType")
+	if f == nil {
+		r.Unk(rule, "C11.E13|decodeType", "", "", "decodeType found", "not found")
+		return
+	}
+	seq := 0
+	eachInstr(f, func(in ssa.Instruction) {
+		rt, ok := in.(*ssa.Return)
+		if !ok || len(rt.Results) != 3 || errKind(rt.Results[2]) != "nil" {
+			return
+		}
+		seq++
+		key := fmt.Sprintf("C11.E13|%s|return#%d", fname(f), seq)
+		inst := "a successful unfolding returns the rest of the folded type to its caller"
+		rest := unspill(rt.Results[1])
+		c, isConst := rest.(*ssa.Const)
+		if !isConst || c.Value != nil {
+			r.OK(rule, key, fname(f), p.Pos(in.Pos()), inst, "the second result is a slice of the fold")
+			return
+		}
+		// constant nil: only for a cache hit of the complete fold
+		hit := false
+		eachInstr(f, func(x ssa.Instruction) {
+			cc := callCommon(x)
+			if cc == nil {
+				return
+			}
+			if m, ok := syncMapCall(cc); ok && m == "Load" {
+				if v, isV := x.(ssa.Value); isV {
+					if okv := tupleExtract(v, 1); okv != nil {
+						t, _, _ := boolEdges(okv)
+						if len(t) > 0 && edgesDominate(t, in) {
+							hit = true
+						}
+					}
+				}
+			}
+		})
+		if hit {
+			r.OK(rule, key, fname(f), p.Pos(in.Pos()), inst, "cache hit for a complete fold: nothing is left")
+		} else {
+			r.Bad(rule, key, fname(f), p.Pos(in.Pos()), inst, "this arm returns a nil remainder: when its type is the KEY type of a map the value type that follows is lost (or rejected as 'extra data') — a map with such a key encodes but does not decode")
+		}
+	})
+	// the caller with a complete fold checks the remainder
+	if g := p.Func("net/edf", "", "getDecoder"); g != nil {
+		eachInstr(g, func(in ssa.Instruction) {
+			c, ok := in.(*ssa.Call)
+			if !ok || staticCallee(c.Common()) != f {
+				return
+			}
+			key := "C11.E13|" + fname(g) + "|complete-fold"
+			inst := "the caller that passes a complete folded type checks that nothing is left over"
+			rest := tupleExtract(c, 1)
+			okc := false
+			if rest != nil {
+				if refs := rest.Referrers(); refs != nil {
+					for _, rf := range *refs {
+						if cc := callCommon(rf.(ssa.Instruction)); cc != nil {
+							if b, ok := cc.Value.(*ssa.Builtin); ok && b.Name() == "len" {
+								okc = true
+							}
+						}
+					}
+				}
+			}
+			if okc {
+				r.OK(rule, key, fname(g), p.Pos(in.Pos()), inst, "len(rest) is examined")
+			} else {
+				r.Bad(rule, key, fname(g), p.Pos(in.Pos()), inst, "the remainder is ignored: trailing bytes in a folded type sent by the peer are accepted silently")
+			}
+		})
+	}
+}
+
+// c11NoProgressElements: E12 — the decoders check a declared element count against the bytes that are
+// left, which is only meaningful when every element takes at least one byte. Wherever a slice or
+// array coder is built for an element type (encoder, registration, unfolding), the predicate "the
+// values of this type take no bytes on the wire" has been consulted and its true edge leaves with an
+// error: such a slice would encode to bytes that do not decode, and a nested array of them makes the
+// decoder spin for 2^32 rounds on twenty bytes.
+func c11NoProgressElements(p *load.Program, r *core.Report, rule, rid string) {
+	r.Floor(rule, 6)
+	var pred *ssa.Function
+	for _, f := range funcsOfPkgs(p, "net/edf") {
+		if f.Parent() != nil || len(f.Params) != 1 || f.Params[0].Type().String() != "reflect.Type" || f.Signature.Results().Len() != 1 || f.Signature.Results().At(0).Type().String() != "bool" {
+			continue
+		}
+		size := false
+		eachInstr(f, func(in ssa.Instruction) {
+			if cc := callCommon(in); cc != nil && cc.IsInvoke() && cc.Method.Name() == "Size" {
+				size = true
+			}
+		})
+		if size {
+			pred = f
+		}
+	}
+	if pred == nil {
+		r.Bad(rule, rid+"|predicate", "", "", "a zero-wire-size predicate exists in net/edf", "none: slices/arrays of struct{} or [0]T are accepted by the encoder although they do not decode, and the decoder loops over peer-declared counts of elements that consume no input")
+		return
+	}
+	seq := map[string]int{}
+	for _, f := range funcsOfPkgs(p, "net/edf") {
+		eachInstr(f, func(in ssa.Instruction) {
+			c, ok := in.(*ssa.Call)
+			if !ok || staticCallee(c.Common()) != pred || f == pred {
+				return
+			}
+			fn := fname(f)
+			seq[fn]++
+			key := fmt.Sprintf("%s|%s|guard#%d", rid, fn, seq[fn])
+			inst := "an element type that takes no bytes on the wire is refused with an error"
+			// the true edge (possibly conjoined with `len > 0`) must not reach a successful return
+			t, _, complete := boolEdges(c)
+			if !complete || len(t) == 0 {
+				r.Unk(rule, key, fn, p.Pos(in.Pos()), inst, "the predicate's result is not a plain branch condition")
+				return
+			}
+			var pts []Point
+			for _, e := range t {
+				b := e.To()
+				// `pred(t) && n > 0`: the true edge enters a block that only evaluates the next
+				// conjunct; the refusal is on that block's true edge
+				for k := 0; k < 3; k++ {
+					pure := len(b.Instrs) > 0
+					for _, x := range b.Instrs {
+						switch x.(type) {
+						case *ssa.BinOp, *ssa.UnOp, *ssa.If, *ssa.Convert, *ssa.FieldAddr, *ssa.DebugRef:
+						case *ssa.Call:
+							if cc := callCommon(x); cc == nil || !cc.IsInvoke() || (cc.Method.Name() != "Len" && cc.Method.Name() != "Size") {
+								pure = false
+							}
+						default:
+							pure = false
+						}
+					}
+					if _, isIf := b.Instrs[len(b.Instrs)-1].(*ssa.If); pure && isIf && len(b.Succs) == 2 {
+						b = b.Succs[0]
+						continue
+					}
+					break
+				}
+				pts = append(pts, Point{b, 0})
+			}
+			// allowed: a further `&& n > 0` test; then an error return
+			idx := errResultIndex(f)
+			bad := false
+			for _, rt := range walkAvoid(pts, func(x ssa.Instruction) bool {
+				// stop at coder construction: reaching it from the true edge is the violation
+				cc := callCommon(x)
+				if cc == nil {
+					return false
+				}
+				if sf := staticCallee(cc); sf != nil && sf.Pkg != nil && sf.Pkg.Pkg.Path() == "reflect" && (sf.Name() == "SliceOf" || sf.Name() == "ArrayOf") {
+					bad = true
+					return true
+				}
+				return false
+			}, isReturn) {
+				if idx >= 0 && errKind(rt.(*ssa.Return).Results[idx]) == "nil" {
+					// a nil-error return reachable from the true edge without another condition in between?
+					if b := rt.Block(); len(b.Preds) == 1 && edgesDominate(t, rt) {
+						bad = true
+					}
+				}
+			}
+			if bad {
+				r.Bad(rule, key, fn, p.Pos(in.Pos()), inst, "on the edge where the element type takes no bytes the coder is built all the same")
+			} else {
+				r.OK(rule, key, fn, p.Pos(in.Pos()), inst, "the true edge leads to an error return (after the optional length test)")
+			}
+		})
+	}
+	// the unfolding arms that make counted-element types are all guarded
+	if f := p.Func("net/edf", "", "decodeType"); f != nil {
+		n := 0
+		eachInstr(f, func(in ssa.Instruction) {
+			cc := callCommon(in)
+			if cc == nil {
+				return
+			}
+			sf := staticCallee(cc)
+			if sf == nil || sf.Pkg == nil || sf.Pkg.Pkg.Path() != "reflect" || (sf.Name() != "SliceOf" && sf.Name() != "ArrayOf") {
+				return
+			}
+			n++
+			key := fmt.Sprintf("%s|%s|%s#%d", rid, fname(f), sf.Name(), n)
+			inst := "reflect." + sf.Name() + " of a peer-declared element type is reached only after the zero-wire-size predicate said no"
+			elem := cc.Args[len(cc.Args)-1]
+			ok := false
+			eachInstr(f, func(x ssa.Instruction) {
+				c, isCall := x.(*ssa.Call)
+				if !isCall || staticCallee(c.Common()) != pred || !sameTypeValue(c.Common().Args[0], elem) {
+					return
+				}
+				t, fl, complete := boolEdges(c)
+				if !complete {
+					return
+				}
+				// either the false edge dominates, or every path through the true edge passes another test (n > 0) first
+				if edgesDominate(fl, in) || reaches(edgePoints(t), nil, func(y ssa.Instruction) bool { return y == in }) == nil || instrDominates(x, in) {
+					ok = true
+				}
+			})
+			if ok {
+				r.OK(rule, key, fname(f), p.Pos(in.Pos()), inst, "predicate consulted on the element type before")
+			} else {
+				r.Bad(rule, key, fname(f), p.Pos(in.Pos()), inst, "no zero-wire-size test of the element type: a folded type [64K][64K][0]int makes the decoder loop 2^32 times on a 20 byte packet")
+			}
+		})
+	}
+}
+
+func edgePoints(es []Edge) []Point {
+	var out []Point
+	for _, e := range es {
+		out = append(out, Point{e.To(), 0})
+	}
+	return out
 }
